@@ -30,8 +30,11 @@ THEOREMS = [
     'Pyiga.Props.C02.ders_row1_eq_cox', 'Pyiga.Props.C02.ders_rows_high_zero',
     'Pyiga.Props.C02.active_values_nonneg', 'Pyiga.Props.C02.active_values_sum_one',
     'Pyiga.Props.C02.single_ev_eq_cox', 'Pyiga.Props.C02.single_ev_boundary',
+    'Pyiga.Props.C02.dN_eq_sum_a', 'Pyiga.Props.C02.ders_buffer_invariant', 'Pyiga.Props.C02.ders_rows_mid_eq_cox',
+    'Pyiga.Props.C02.ders_eq_cox',
 ]
-MODULES = ['Pyiga.Model.Knots', 'Pyiga.Model.BSpline', 'Pyiga.Proofs.Knots', 'Pyiga.Proofs.BSpline', 'Pyiga.Props.C02']
+MODULES = ['Pyiga.Model.Knots', 'Pyiga.Model.BSpline', 'Pyiga.Proofs.Knots', 'Pyiga.Proofs.BSpline', 'Pyiga.Proofs.Ders', 'Pyiga.Props.C02',
+           'Pyiga.Props.C02Full']
 
 F_SPLEV = 32    # splev (FITPACK de Boor / splder) is a different algorithm: route agreement at 32x the A2.3 bound
 F_TP = 4        # collocation-matrix products: same values, different summation order
@@ -104,8 +107,8 @@ def rows_oracle(kv, p, us, nd, get):
 def run(ctx):
     ctx.build_repo()
     from pyiga import bspline
-    ctx.require_lean(['Pyiga.Props.C02', 'drv_c02'])
-    ctx.audit(['Pyiga.Props.C02'], THEOREMS, MODULES)
+    ctx.require_lean(['Pyiga.Props.C02', 'Pyiga.Props.C02Full', 'drv_c02'])
+    ctx.audit(['Pyiga.Props.C02', 'Pyiga.Props.C02Full'], THEOREMS, MODULES)
     if ctx.tier == 'thorough':
         ctx.leanchecker(MODULES)
     rng = ctx.rng
